@@ -1030,3 +1030,49 @@ fn one_session_per_client_id_and_connection_limit() {
     }
     report(name, "C19,C14", &format!("all sequences of {} connect(clean/persistent)/disconnect actions over 3 legal and 4 illegal client ids, connection limit 2", depth), cases, fail);
 }
+
+/// C03: longer, hand-picked histories that the exhaustive depth-bounded exploration cannot reach (each was
+/// suggested by reading a handler: they combine a persistent session, a shared subscription, unacknowledged
+/// forwards and a disconnect / takeover)
+// @native props=C03,C14 tier=quick fn=Router::{handle_disconnection,handle_new_connection,handle_device_payload}
+#[test]
+fn router_survives_selected_long_histories() {
+    let name = "rumqttd::Router::events#selected_long_histories_do_not_panic";
+    let histories: Vec<(&str, Vec<Act>)> = vec![
+        ("sole member of a persistent shared subscription disconnects with an unacknowledged forward", vec![Act::ConnA(false), Act::SubShareA, Act::ConnB, Act::PubB(1), Act::PubB(1), Act::DisconnectEvt(0)]),
+        ("the same, ended by a DISCONNECT packet", vec![Act::ConnA(false), Act::SubShareA, Act::ConnB, Act::PubB(1), Act::DisconnectPacketA]),
+        ("persistent subscriber with unacknowledged forwards is taken over twice", vec![Act::ConnA(false), Act::SubA, Act::ConnB, Act::PubB(1), Act::PubB(1), Act::ConnA(false), Act::ConnA(false), Act::PubB(1)]),
+        ("persistent subscriber resumes, unsubscribes, is published to", vec![Act::ConnA(false), Act::SubA, Act::DisconnectEvt(0), Act::ConnA(false), Act::UnsubA, Act::ConnB, Act::PubB(1), Act::AckA(1)]),
+        ("late Disconnect / Ready of a replaced connection", vec![Act::ConnA(true), Act::SubA, Act::ConnA(true), Act::DisconnectEvt(0), Act::Ready(0), Act::ConnB, Act::PubB(0)]),
+        ("QoS 2 release after the publisher was replaced", vec![Act::ConnB, Act::PubB(2), Act::ConnB, Act::RelB(1), Act::RelB(1)]),
+        ("will of a persistent client fires while it resumes", vec![Act::ConnA(false), Act::SubA, Act::Will, Act::DisconnectEvt(0), Act::Will, Act::ConnA(false), Act::Will]),
+    ];
+    let prev = std::panic::take_hook();
+    std::panic::set_hook(Box::new(|_| {}));
+    let mut cases = 0;
+    let mut fail: Option<String> = None;
+    for (what, seq) in &histories {
+        cases += 1;
+        let res = catch_unwind(AssertUnwindSafe(|| {
+            let mut r = new_router();
+            let mut a: Option<Client> = None;
+            let mut b: Option<Client> = None;
+            for (i, act) in seq.iter().enumerate() {
+                if catch_unwind(AssertUnwindSafe(|| apply(&mut r, &mut a, &mut b, *act))).is_err() {
+                    return Err(format!("routing core panicked at step {} ({:?})", i, act));
+                }
+            }
+            match catch_unwind(AssertUnwindSafe(|| still_serves(&mut r))) {
+                Ok(Ok(())) => Ok(()),
+                Ok(Err(e)) => Err(format!("router no longer serves new clients: {}", e)),
+                Err(_) => Err("routing core panicked while serving a fresh client afterwards".to_string()),
+            }
+        }));
+        if let Err(e) = match res { Ok(v) => v, Err(_) => Err("panic".to_string()) } {
+            fail = Some(format!("input=[{}: {:?}] detail=[{}]", what, seq, e));
+            break;
+        }
+    }
+    std::panic::set_hook(prev);
+    report(name, "C03,C14", "7 hand-picked histories of 5-8 actions (persistent + shared + unacknowledged + disconnect/takeover)", cases, fail);
+}
